@@ -33,6 +33,7 @@ structure Feat where
   inherit : Bool := false
   wildcard : Bool := false
   union : Bool := false
+  qname : Bool := false
 deriving DecidableEq, Repr
 
 /-! ### metadata -/
@@ -109,7 +110,9 @@ def elemVarOK (ft : Feat) (Γ : Ctx) (m : XmlMeta) (ci : ClassInfo) (v : XmlVar)
         else scalarDefault v.default t && (!v.nillable || decide (v.default = .none))
       | none =>
         -- a union of primitives: `Optional[Union[..]]` with default `None` or a list of them
-        ft.union && primUnionOf v && v.init && !v.tokens && !v.nillable &&
+        -- … or a QName-typed element (`Optional[QName]` / `List[QName]`)
+        ((ft.union && primUnionOf v) || (ft.qname && decide (v.types = [.prim .qname]))) &&
+        v.init && !v.tokens && !v.nillable &&
         (if v.listElement then decide (v.default = .listFactory) else decide (v.default = .none)))
    | some c =>
      !v.tokens && decide (v.types = [.cls c]) &&
@@ -296,6 +299,12 @@ def typeNameOK (e : BEnv) (t : QN) : Bool :=
   !tag.isEmpty && tag.all (fun ch => ch ≠ ':' && !e.py.isSpace ch) && tag.head? ≠ some '{' &&
   e.isNCName tag
 
+/-- one child element of a QName-typed var: a QName whose local part is an NCName (the namespace, if
+any, gets a prefix of the document's prefix map and is found again through it) -/
+def qnameItemOK (e : BEnv) : Val → Bool
+  | .prim (.qname t) => typeNameOK e t
+  | _ => false
+
 /-- an object under an element var of declared class `c` (`pns`: the namespace the parser looks the
 metadata up under): an instance of `c` itself, or (`inh`) of a proper subclass `cls` whose qualified
 name leads `XmlContext.fetch` from `c` back to `cls`.  `rec cls xt` checks the instance. -/
@@ -356,7 +365,16 @@ def elemValOK (inh : Bool) (e : BEnv) (Γ : Ctx) (m : XmlMeta) (ci : ClassInfo) 
           | .none => var.nillable || fdNone ci var.name
           | y => primItemOK var t y)
      | none =>
-       if var.listElement then
+       if var.types = [.prim .qname] then
+         (if var.listElement then
+            (match x with
+             | .list xs => xs.all (qnameItemOK e)
+             | _ => false)
+          else
+            (match x with
+             | .none => fdNone ci var.name
+             | y => qnameItemOK e y))
+       else if var.listElement then
          (match x with
           | .list xs => xs.all (unionItemOK e var)
           | _ => false)
